@@ -20,13 +20,22 @@ use core::sync::atomic::{AtomicUsize, Ordering};
 pub static COUNT: AtomicUsize = AtomicUsize::new(0);
 pub fn count() -> usize { COUNT.load(Ordering::SeqCst) }
 macro_rules! tys { ($p:ident, $q:ident, $r:ident) => {
-    #[derive(Clone, Copy, Debug, PartialEq)] pub struct $p(pub u8);
+    #[derive(Clone, Copy, Debug, PartialEq)] #[repr(transparent)] pub struct $p(pub u8);
     #[derive(Clone, Copy, Debug, PartialEq)] pub struct $q(pub u8);
     #[derive(Clone, Copy, Debug, PartialEq)] pub struct $r(pub u8);
     impl From<$q> for $p { fn from(q: $q) -> $p { COUNT.fetch_add(1, Ordering::SeqCst); $p(q.0) } }
     impl From<$p> for $r { fn from(p: $p) -> $r { COUNT.fetch_add(1, Ordering::SeqCst); $r(p.0) } }
 } }
 tys!(P1, Q1, R1); tys!(P2, Q2, R2); tys!(P3, Q3, R3);
+// targets of listed Into types: owned, shared and mutable conversions, each counting its calls; the reference forms
+// return a reference INTO the source field (same address), which repr(transparent) over u8 makes sound
+macro_rules! conv { ($p:ident, $t:ident) => {
+    #[derive(Clone, Copy, Debug, PartialEq)] #[repr(transparent)] pub struct $t(pub u8);
+    impl From<$p> for $t { fn from(p: $p) -> $t { COUNT.fetch_add(1, Ordering::SeqCst); $t(p.0) } }
+    impl<'a> From<&'a $p> for &'a $t { fn from(p: &'a $p) -> &'a $t { COUNT.fetch_add(1, Ordering::SeqCst); unsafe { &*(p as *const $p as *const $t) } } }
+    impl<'a> From<&'a mut $p> for &'a mut $t { fn from(p: &'a mut $p) -> &'a mut $t { COUNT.fetch_add(1, Ordering::SeqCst); unsafe { &mut *(p as *mut $p as *mut $t) } } }
+} }
+conv!(P1, RS1); conv!(P2, RS2); conv!(P1, ZF1); conv!(P2, ZF2);
 macro_rules! impls { ($t:ty : $($tr:tt)+) => {{
     trait Fb { const V: bool = false; } impl<T: ?Sized> Fb for T {}
     struct W<T: ?Sized>(core::marker::PhantomData<T>);
@@ -212,6 +221,111 @@ def into_module(c, key):
     return mod, exp, decl
 
 
+def into_attr_text(a, typed_target):
+    """the text of one #[into(...)] attribute for a content record of IntoAttr.tla"""
+    if a["k"] == "none":
+        return ""
+    if a["k"] == "top":
+        return f"#[into({typed_target})] "
+    parts = []
+    for f in ("owned", "ref", "ref_mut"):
+        if a[f] == "bare":
+            parts.append(f)
+        elif a[f] == "typed":
+            parts.append(f"{f}({typed_target})")
+    return "#[into(" + ", ".join(parts) + ")] " if parts else "#[into] "
+
+
+def into2_module(c, key):
+    """IntoAttr.tla: the full attribute grammar (per-form bare / typed conversions on the struct and on one field)"""
+    st = c["st"]
+    n, skip, sa, fk, fa = st["n"], set(st["skip"]), st["sa"], st["fk"], st["fa"]
+    comps = list(c["comps"])
+    impls = {tuple(x) for x in c["impls"]}
+    named = vlib.seeded_pick(key, 7, 2) == 0
+    ftys = ["P2" if (f + 1) == fk else "P1" for f in range(n)]
+    mem = lambda f: ("abc"[f - 1] if named else str(f - 1))
+    comp_tys = [ftys[f - 1] for f in comps]
+    comp_typed = ["RS" + t[1] for t in comp_tys]
+    s_typed_target = tup(comp_typed) if len(comp_typed) != 1 else comp_typed[0]
+    struct_attr = into_attr_text(sa, s_typed_target).strip()
+    fields = []
+    for f in range(n):
+        a = ("#[into(skip)] " if (f + 1) in skip else "") + (into_attr_text(fa, "ZF2") if (f + 1) == fk else "")
+        fields.append(f"{a}pub {'abc'[f]}: {ftys[f]}" if named else f"{a}pub {ftys[f]}")
+    if n == 0:
+        body = " {}" if named else "();"
+    else:
+        body = (" { " + ", ".join(fields) + " }") if named else ("(" + ", ".join(fields) + ");")
+    decl = f"#[derive(derive_more::Into, Clone, Copy, Debug, PartialEq)]\n{struct_attr}\npub struct S{body}"
+    vals = [f"{ftys[f]}({f + 1})" for f in range(n)]
+    if n == 0:
+        init = "S {}" if named else "S()"
+    else:
+        init = ("S { " + ", ".join(f"{'abc'[f]}: {v}" for f, v in enumerate(vals)) + " }") if named else "S(" + ", ".join(vals) + ")"
+    REF = {"owned": "", "ref": "&'static ", "ref_mut": "&'static mut "}
+    SRC = {"owned": "S", "ref": "&'static S", "ref_mut": "&'static mut S"}
+    # every conversion target that could exist, and whether the documented impl set has it
+    targets = {}      # (form, target text) -> [impl, ...]
+    cand = []
+    for form in ("owned", "ref", "ref_mut"):
+        cand.append((("struct", form, "bare"), comp_tys))
+        if comps:
+            cand.append((("struct", form, "typed"), comp_typed))
+        if fk:
+            cand.append((("field", form, "bare"), ["P2"]))
+            cand.append((("field", form, "typed"), ["ZF2"]))
+    rows, exp = [], []
+    for impl, tys in cand:
+        form = impl[1]
+        t = tup([REF[form] + x for x in tys])
+        targets.setdefault((form, t), []).append(impl)
+    for (form, t), il in targets.items():
+        rows.append(f"rows.push(format!(\"has {form} {t} {{}}\", impls!({t}: From<{SRC[form]}>)));")
+        exp.append(f"has {form} {t} {'true' if any(i in impls for i in il) else 'false'}")
+    # behaviour of every documented impl
+    for impl in sorted(impls):
+        level, form, kind = impl
+        if level == "struct":
+            idx, tys = comps, (comp_tys if kind == "bare" else comp_typed)
+        else:
+            idx, tys = [fk], (["P2"] if kind == "bare" else ["ZF2"])
+        nc = len(idx)
+        calls = nc if kind == "typed" else 0
+        tag = f"{level} {form} {kind}"
+        get = (lambda var, x: f"{var}.0" if nc == 1 else f"{var}.{x}.0")
+        if form == "owned":
+            t = tup(tys)
+            vec = "Vec::<u8>::new()" if nc == 0 else "vec![" + ", ".join(get("t", x) for x in range(nc)) + "]"
+            rows.append(f'{{ let c0 = count(); let t: {t} = s.into(); let c1 = count(); rows.push(format!("{tag} {{:?}} {{}}", {vec}, c1 - c0)); }}')
+            exp.append(f"{tag} {[i for i in idx]} {calls}")
+        elif form == "ref" and nc >= 1:
+            t = tup(["&" + x for x in tys])
+            addr = "vec![ad(t)]" if nc == 1 else "vec![" + ", ".join(f"ad(t.{x})" for x in range(nc)) + "]"
+            want = "vec![" + ", ".join(f"ad(&s.{mem(f)})" for f in idx) + "]"
+            rows.append(f'{{ let c0 = count(); let t = <{t}>::from(&s); let c1 = count(); rows.push(format!("{tag} {{}} {{}}", {addr} == {want}, c1 - c0)); }}')
+            exp.append(f"{tag} true {calls}")
+        elif form == "ref_mut" and nc >= 1:
+            t = tup(["&mut " + x for x in tys])
+            setall = "t.0 = 200;" if nc == 1 else " ".join(f"t.{x}.0 = {200 + x};" for x in range(nc))
+            got = "vec![" + ", ".join(f"m.{mem(f)}.0" for f in idx) + "]"
+            rows.append(f'{{ let mut m = s; let c0 = count(); {{ let t = <{t}>::from(&mut m); {setall} }} let c1 = count(); rows.push(format!("{tag} {{:?}} {{}}", {got}, c1 - c0)); }}')
+            exp.append(f"{tag} {[200 + x for x in range(nc)]} {calls}")
+    mod = ("use super::*;\n" + decl + f"\npub fn run() {{ let s = {init}; let mut rows: Vec<String> = vec![];\n    " + "\n    ".join(rows) +
+           f"\n    report({json.dumps(key)}, &rows); }}")
+    return mod, exp, decl
+
+
+def key_of_into2(c):
+    st = c["st"]
+
+    def a(x):
+        if x["k"] != "forms":
+            return x["k"]
+        return "/".join(f"{f}:{x[f]}" for f in ("owned", "ref", "ref_mut") if x[f] != "no") or "empty"
+    return f"into2|n{st['n']}|skip{sorted(st['skip'])}|s[{a(st['sa'])}]|f{st['fk']}[{a(st['fa'])}]"
+
+
 def constructor_modules():
     out = []
     for n in range(0, 4):
@@ -249,6 +363,18 @@ def run(chk, tier, seed, replay):
             continue
         mods.append((k, m))
         exps[k] = (e, d)
+    r2 = vlib.run_tlc("MC_IntoAttr", f"MC_IntoAttr_{tier}", workers=4, timeout=1800, xmx="4g")
+    chk.add_tlc(r2, "Into attribute grammar")
+    if not r2.ok:
+        raise vlib.ToolError(f"TLC: {r2.violation}\n{r2.raw_tail[-1500:]}")
+    into2 = {key_of_into2(c): c for c in r2.cases}
+    sel = vlib.cap_cases(into2.keys(), seed, 2400 if tier == "quick" else 12000)
+    for k, c in into2.items():
+        if k in sel:
+            m, e, d = into2_module(c, k)
+            mods.append((k, m))
+            exps[k] = (e, d)
+    chk.notes["into_attr_cases"] = {"model": len(into2), "compiled": len(sel)}
     for k, m, e, d in constructor_modules():
         mods.append((k, m))
         exps[k] = (e, d)
